@@ -219,7 +219,7 @@ def _booltime(lib, c):
 
 CONTAINER_DIMS = [("criteria", ["cmp", "cmp-raw-leq", "list", "bool-cond-value", "bool-cond-param", "bool-and-or", "bool-or-and", "none"]),
                   ("abstract_root", [True, False]), ("child_abstract", [False, True]), ("short", [None, "short text"]), ("long", [None, "long\ntext <&>"]),
-                  ("pshort", [None, "p short <&>"]), ("plong", [None, "p long <&> \"q\" text"]), ("nested", [False, True]), ("ns", ["xtce", "default", "other-prefix"]),
+                  ("pshort", [None, "p short <&>"]), ("plong", [None, "p long <&> \"q\" text"]), ("nested", [False, True, "unlisted"]), ("ns", ["xtce", "default", "other-prefix"]),      # unlisted: the nested container is reachable through the entry list only
                   # inheritance depth and the ORDER in which the containers are handed over / written (descendants before their ancestors is legal)
                   ("levels", ["two", "three-root-first", "three-leaf-first"])]
 
@@ -243,7 +243,8 @@ def build(lib, subject_name, cfg):
     if cfg.get("nested"):
         inner = SC.SequenceContainer("INNER", [tail], short_description="inner")
         entries = list(params) + [inner]
-        conts.append(inner)
+        if cfg["nested"] is True:
+            conts.append(inner)
     form = cfg.get("criteria", "cmp")
     child = SC.SequenceContainer("CHILD", entries, base_container_name="CCSDSPacket", restriction_criteria=_criteria(lib, form) if form != "none" else [],
                                  abstract=cfg.get("child_abstract", False), short_description=cfg.get("short"), long_description=cfg.get("long"))
